@@ -623,6 +623,7 @@ def quiet_logs():
 
 def run_shard(spec, rec):
     quiet_logs()
+    OT.memoize_pem_loading()
     OT.KEYS.rsa(0)
     if spec["mode"] == "product":
         cells = list(all_cells())
@@ -648,6 +649,7 @@ def run_shard(spec, rec):
 
 def replay(case, rec):
     quiet_logs()
+    OT.memoize_pem_loading()
     OT.KEYS.rsa(0)
     run_cell(case, rec)
 
